@@ -297,3 +297,59 @@ mod h {
         }
     }
 }
+
+// ---------------------------------------------------------------- C12: feature-gated value types (cargo feature `types`)
+// One harness per type: x -> Value lands in T's own variant, extracts as x; None -> NULL of T's variant -> None; a value of
+// another variant does not extract as T.  Inputs: every value the type's own checked constructor accepts over fully symbolic
+// arguments (the constructors' rejections are the types' own validity rules, not a bound of the harness).
+#[cfg(all(kani, feature = "types"))]
+mod types {
+    use sea_query::{Nullable, Value, ValueType};
+    use std::mem::discriminant;
+    macro_rules! boxed {
+        ($name:ident, $t:ty, $variant:ident, $mk:expr) => {
+            #[kani::proof]
+            #[kani::unwind(34)]
+            fn $name() {
+                let made: Option<$t> = $mk;
+                if let Some(x) = made {
+                    let keep = x.clone();
+                    let v: Value = x.into();
+                    assert!(matches!(v, Value::$variant(Some(_))));
+                    assert!(discriminant(&v) == discriminant(&<$t as Nullable>::null()));
+                    match <$t as ValueType>::try_from(v) { Ok(y) => assert!(y == keep), Err(_) => assert!(false) }
+                    let w: Value = Some(keep.clone()).into();
+                    match <Option<$t> as ValueType>::try_from(w) { Ok(Some(y)) => assert!(y == keep), _ => assert!(false) }
+                }
+                let n: Value = Option::<$t>::None.into();
+                assert!(matches!(n, Value::$variant(None)));
+                assert!(matches!(<Option<$t> as ValueType>::try_from(n), Ok(None)));
+                // another variant (NULL or not) is not a T
+                assert!(<$t as ValueType>::try_from(Value::BigInt(if kani::any() { Some(kani::any()) } else { None })).is_err());
+                assert!(<Option<$t> as ValueType>::try_from(Value::Bool(Some(kani::any()))).is_err());
+            }
+        };
+    }
+    fn naive_date() -> Option<chrono::NaiveDate> { chrono::NaiveDate::from_num_days_from_ce_opt(kani::any()) }
+    fn naive_time() -> Option<chrono::NaiveTime> { chrono::NaiveTime::from_num_seconds_from_midnight_opt(kani::any(), kani::any()) }
+    fn naive_dt() -> Option<chrono::NaiveDateTime> { match (naive_date(), naive_time()) { (Some(d), Some(t)) => Some(chrono::NaiveDateTime::new(d, t)), _ => None } }
+    boxed!(ft_uuid, uuid::Uuid, Uuid, Some(uuid::Uuid::from_bytes(kani::any())));
+    boxed!(ft_chrono_date, chrono::NaiveDate, ChronoDate, naive_date());
+    boxed!(ft_chrono_time, chrono::NaiveTime, ChronoTime, naive_time());
+    boxed!(ft_chrono_datetime, chrono::NaiveDateTime, ChronoDateTime, naive_dt());
+    boxed!(ft_chrono_datetime_utc, chrono::DateTime<chrono::Utc>, ChronoDateTimeUtc, naive_dt().map(|n| chrono::DateTime::<chrono::Utc>::from_naive_utc_and_offset(n, chrono::Utc)));
+    boxed!(ft_chrono_datetime_tz, chrono::DateTime<chrono::FixedOffset>, ChronoDateTimeWithTimeZone,
+           match (naive_dt(), chrono::FixedOffset::east_opt(kani::any())) { (Some(n), Some(o)) => Some(chrono::DateTime::<chrono::FixedOffset>::from_naive_utc_and_offset(n, o)), _ => None });
+    boxed!(ft_decimal, rust_decimal::Decimal, Decimal, { let s: u32 = kani::any(); if s <= 28 { Some(rust_decimal::Decimal::from_parts(kani::any(), kani::any(), kani::any(), kani::any(), s)) } else { None } });
+    fn t_date() -> Option<time::Date> { time::Date::from_julian_day(kani::any()).ok() }
+    fn t_time() -> Option<time::Time> { time::Time::from_hms_nano(kani::any(), kani::any(), kani::any(), kani::any()).ok() }
+    boxed!(ft_time_date, time::Date, TimeDate, t_date());
+    boxed!(ft_time_time, time::Time, TimeTime, t_time());
+    boxed!(ft_time_datetime, time::PrimitiveDateTime, TimeDateTime, match (t_date(), t_time()) { (Some(d), Some(t)) => Some(time::PrimitiveDateTime::new(d, t)), _ => None });
+    boxed!(ft_time_datetime_tz, time::OffsetDateTime, TimeDateTimeWithTimeZone,
+           match (t_date(), t_time(), time::UtcOffset::from_whole_seconds(kani::any()).ok()) { (Some(d), Some(t), Some(o)) => Some(time::PrimitiveDateTime::new(d, t).assume_offset(o)), _ => None });
+    boxed!(ft_mac_address, mac_address::MacAddress, MacAddress, Some(mac_address::MacAddress::new(kani::any())));
+    boxed!(ft_ipnetwork_v4, ipnetwork::IpNetwork, IpNetwork, ipnetwork::Ipv4Network::new(std::net::Ipv4Addr::from(kani::any::<u32>()), kani::any()).ok().map(ipnetwork::IpNetwork::V4));
+    boxed!(ft_ipnetwork_v6, ipnetwork::IpNetwork, IpNetwork, ipnetwork::Ipv6Network::new(std::net::Ipv6Addr::from(kani::any::<u128>()), kani::any()).ok().map(ipnetwork::IpNetwork::V6));
+    // JSON is not covered: serde_json::Value's recursive drop / eq made CBMC time out (300 s) even for scalars
+}
